@@ -60,9 +60,11 @@ UndMenu(o) ==
         b == IF o = 3 THEN 2 ELSE 3
         base == {TInt,
                  Struct(<<Fld("Next", DPkg[o], FALSE, "", Ptr(CN(o)))>>),                \* self cycle
-                 Struct(<<Fld("A", DPkg[o], FALSE, "t", Ptr(CN(a))), Fld("b", DPkg[o], FALSE, "", Slice(CN(b)))>>),
+                 \* (an untagged field BEFORE the first tagged one: tags must stay with their fields)
+                 Struct(<<Fld("b", DPkg[o], FALSE, "", Slice(CN(b))), Fld("A", DPkg[o], FALSE, "t", Ptr(CN(a)))>>),
                  Iface(<<Mth("M", DPkg[o], F0)>>, <<>>)}
         more == {Str,
+                 Struct(<<Fld("A", DPkg[o], FALSE, "t", Ptr(CN(a))), Fld("b", DPkg[o], FALSE, "", Slice(CN(b))), Fld("C", DPkg[o], FALSE, "u", TInt)>>),
                  Struct(<<Fld(DName[a], DPkg[a], TRUE, "", CN(a)), Fld("B", DPkg[o], FALSE, "", Arr(3, TInt))>>),
                  Struct(<<Fld(DName[b], DPkg[b], TRUE, "", Ptr(CN(b)))>>),
                  Slice(CN(a)), MapT(Str, Ptr(CN(o))), Chan(2, CN(b)), Chan(1, TInt),
